@@ -32,14 +32,20 @@ Proof. exact kind_code_inj. Qed.
 Print Assumptions C04_type_codes_distinct.
 
 (* ---- exactly one request message per API call, carrying what was given ---- *)
-Theorem C04_one_message_call : forall fl cfg s uri a kw o, transport s = true -> topen s = true ->
+(* [failnext s = None]: no injected send failure is in progress -- true in every reachable state
+   ([C04_no_failure_in_progress]); the failing sends are the subject of the [C04_failed_send*] theorems below *)
+Theorem C04_no_failure_in_progress : forall fl cfg ops, failnext (final fl cfg ops) = None.
+Proof. exact failnext_reachable. Qed.
+Print Assumptions C04_no_failure_in_progress.
+
+Theorem C04_one_message_call : forall fl cfg s uri a kw o, transport s = true -> topen s = true -> failnext s = None ->
   sends_one fl cfg s (ACall uri a kw o) KCall o uri
     (fun id => MCall id uri a kw (match o with Some c => co_timeout c | None => None end)
                      (match o with Some c => co_progress c | None => false end)).
 Proof. exact call_one_message. Qed.
 Print Assumptions C04_one_message_call.
 
-Theorem C04_one_message_publish_ack : forall fl cfg s uri a kw o, transport s = true -> topen s = true ->
+Theorem C04_one_message_publish_ack : forall fl cfg s uri a kw o, transport s = true -> topen s = true -> failnext s = None ->
   po_wants_ack o = true ->
   sends_one fl cfg s (APublish uri a kw o) KPublish None uri
     (fun id => MPublish id uri a kw (match o with Some p => po_ack p | None => None end)
@@ -47,7 +53,7 @@ Theorem C04_one_message_publish_ack : forall fl cfg s uri a kw o, transport s = 
 Proof. exact publish_ack_one_message. Qed.
 Print Assumptions C04_one_message_publish_ack.
 
-Theorem C04_one_message_publish_noack : forall fl cfg s uri a kw o, transport s = true -> topen s = true ->
+Theorem C04_one_message_publish_noack : forall fl cfg s uri a kw o, transport s = true -> topen s = true -> failnext s = None ->
   po_wants_ack o = false ->
   exists s', step fl cfg s (APublish uri a kw o) =
       (s', [Sent (MPublish (idgen_next (next_id s)) uri a kw (match o with Some p => po_ack p | None => None end)
@@ -56,27 +62,27 @@ Theorem C04_one_message_publish_noack : forall fl cfg s uri a kw o, transport s 
 Proof. exact publish_noack_one_message. Qed.
 Print Assumptions C04_one_message_publish_noack.
 
-Theorem C04_one_message_subscribe : forall fl cfg s uri o, transport s = true -> topen s = true ->
+Theorem C04_one_message_subscribe : forall fl cfg s uri o, transport s = true -> topen s = true -> failnext s = None ->
   sends_one fl cfg s (ASubscribe uri o) KSubscribe None uri
     (fun id => MSubscribe id uri (match o with Some c => opt_default (so_match c) | None => 0 end)
                           (match o with Some c => so_get_retained c | None => None end)).
 Proof. exact subscribe_one_message. Qed.
 Print Assumptions C04_one_message_subscribe.
 
-Theorem C04_one_message_register : forall fl cfg s uri o, transport s = true -> topen s = true ->
+Theorem C04_one_message_register : forall fl cfg s uri o, transport s = true -> topen s = true -> failnext s = None ->
   sends_one fl cfg s (ARegister uri o) KRegister None uri
     (fun id => MRegister id uri (match o with Some c => opt_default (ro_match c) | None => 0 end)
                          (match o with Some c => opt_default (ro_invoke c) | None => 0 end)).
 Proof. exact register_one_message. Qed.
 Print Assumptions C04_one_message_register.
 
-Theorem C04_one_message_unsubscribe : forall fl cfg s h subid, transport s = true -> topen s = true ->
+Theorem C04_one_message_unsubscribe : forall fl cfg s h subid, transport s = true -> topen s = true -> failnext s = None ->
   sub_id_of s h = Some subid -> assoc subid (subs s) = Some [h] ->
   sends_one fl cfg s (AUnsubscribe h) KUnsubscribe None subid (fun id => MUnsubscribe id subid).
 Proof. exact unsubscribe_one_message. Qed.
 Print Assumptions C04_one_message_unsubscribe.
 
-Theorem C04_one_message_unregister : forall fl cfg s h regid, transport s = true -> topen s = true ->
+Theorem C04_one_message_unregister : forall fl cfg s h regid, transport s = true -> topen s = true -> failnext s = None ->
   reg_id_of s h = Some regid -> assoc regid (regs s) = Some h ->
   sends_one fl cfg s (AUnregister h) KUnregister None regid (fun id => MUnregister id regid).
 Proof. exact unregister_one_message. Qed.
@@ -123,7 +129,7 @@ Print Assumptions C04_pending_not_done.
    found, the future the call is about to return completes with the reply's content, the call returns it and does
    not raise.  [api_request] covers all six request kinds. *)
 Theorem C04_reply_during_send : forall fl cfg s a r v k co t c,
-  transport s = true -> topen s = true -> sid s = Some v -> is_done s (next_fut s) = false ->
+  transport s = true -> topen s = true -> failnext s = None -> sid s = Some v -> is_done s (next_fut s) = false ->
   assoc (next_fut s) (reacts s) = None ->
   api_request s a = Some (k, co, t) ->
   reply_spec r = Some (k, idgen_next (next_id s), c) ->
@@ -137,6 +143,54 @@ Theorem C04_reply_during_send : forall fl cfg s a r v k co t c,
   /\ done s2 = done s ++ [(f, c rq)] /\ user_sees fl s1 s2 o2 f (c rq).
 Proof. exact reply_during_send. Qed.
 Print Assumptions C04_reply_during_send.
+
+(* ---- send() fails ---- *)
+(* transport.send() can fail in three ways (SerializationError, PayloadExceededError, TransportLost); [AFail e a] is
+   the API call [a] whose send() raises [e].  For each of the six request kinds ([api_request]) and each [e]: the call
+   raises [e], nothing reaches the wire, the id is consumed, no future gets a result, registrations and the
+   life-cycle are untouched; call() and publish() take their record back ([keeps_record] = false: the table is as
+   before, whatever it contained), subscribe / register / unsubscribe / unregister leave theirs (no try/except in
+   the code: KNOWN defect, see the refutation below). *)
+Theorem C04_failed_send : forall fl cfg s e a k co t,
+  transport s = true -> failnext s = None -> api_request s a = Some (k, co, t) ->
+  let '(s1, o1) := step fl cfg s (AFail e a) in
+  (exists m, o1 = [SendFailed m; ApiRaised e])
+  /\ next_id s1 = idgen_next (next_id s) /\ done s1 = done s /\ failnext s1 = None /\ lcore s1 = lcore s
+  /\ (k <> KUnsubscribe -> subs s1 = subs s) /\ regs s1 = regs s
+  /\ pend s1 = if keeps_record k then put_req (mkreq k (idgen_next (next_id s)) (next_fut s) co t) (pend s)
+               else remove_req k (idgen_next (next_id s)) (pend s).
+Proof. exact failed_send. Qed.
+Print Assumptions C04_failed_send.
+
+Theorem C04_failed_send_table_unchanged : forall k i l, find_req k i l = None -> remove_req k i l = l.
+Proof. exact remove_req_absent. Qed.
+Print Assumptions C04_failed_send_table_unchanged.
+
+Theorem C04_failed_send_publish_noack : forall fl cfg s e uri a kw o,
+  transport s = true -> failnext s = None -> po_wants_ack o = false ->
+  let '(s1, o1) := step fl cfg s (AFail e (APublish uri a kw o)) in
+  (exists m, o1 = [SendFailed m; ApiRaised e])
+  /\ next_id s1 = idgen_next (next_id s) /\ pend s1 = pend s /\ done s1 = done s /\ failnext s1 = None /\ lcore s1 = lcore s.
+Proof. exact failed_send_publish_noack. Qed.
+Print Assumptions C04_failed_send_publish_noack.
+
+(* call / publish: a later router message bearing the id the failed call consumed is a protocol violation *)
+Theorem C04_failed_send_reply_is_violation : forall fl cfg s e a r v k co t c,
+  transport s = true -> sid s = Some v -> failnext s = None ->
+  api_request s a = Some (k, co, t) -> keeps_record k = false ->
+  reply_spec r = Some (k, idgen_next (next_id s), c) -> find_req k (idgen_next (next_id s)) (pend s) = None ->
+  let '(s1, o1) := step fl cfg s (AFail e a) in
+  (exists m, o1 = [SendFailed m; ApiRaised e]) /\ pend s1 = pend s /\ step fl cfg s1 r = (s1, [Raised XProtocolError]).
+Proof. exact failed_send_reply_is_violation. Qed.
+Print Assumptions C04_failed_send_reply_is_violation.
+
+(* FALSE for the four other kinds: register() raises PayloadExceededError, the router's REGISTERED bearing that id is
+   accepted silently and creates a Registration for the call that failed *)
+Theorem C04_failed_send_reply_refuted_record_left :
+  exists cfg ops, In (ApiRaised XPayloadExceeded) (trace Tx cfg ops) /\ ~ In (Raised XProtocolError) (trace Tx cfg ops)
+                  /\ regs (final Tx cfg ops) <> [].
+Proof. exact failed_send_reply_refuted_record_left. Qed.
+Print Assumptions C04_failed_send_reply_refuted_record_left.
 
 (* its freshness hypothesis holds in every reachable state *)
 Theorem C04_fresh_future_not_done : forall fl cfg ops, is_done (final fl cfg ops) (next_fut (final fl cfg ops)) = false.
